@@ -15,7 +15,8 @@ Record client := mkClient {
   c_id : string; c_secret : string;
   c_auth : authm;        (* AuthMethod *)
   c_dev : bool;          (* device_code grant registered *)
-  c_refresh : bool }.    (* refresh_token grant registered *)
+  c_refresh : bool;      (* refresh_token grant registered *)
+  c_jwt : bool }.        (* AccessTokenType JWT (else an opaque bearer token) *)
 
 (* what a request presents: Basic header, client_id / client_secret form fields ("" = absent) *)
 Record creds := mkCreds { cr_basic : option (string * string); cr_id : string; cr_secret : string }.
@@ -54,12 +55,26 @@ Inductive op :=
        arrives under Host [host] with an optional Forwarded host parameter *)
 | OpApprove (uc sub : string)       (* the user approves the user code as subject *)
 | OpDeny (uc : string)
-| OpPoll (r : router) (cr : creds) (dc : string) (now : Z) (f : fault).
-    (* POST /oauth/token grant_type=device_code; f = injected failure of GetDeviceAuthorizatonState *)
+| OpPoll (r : router) (cr : creds) (dc : string) (now : Z) (f : fault)
+         (host : string) (fwd : option string).
+    (* POST /oauth/token grant_type=device_code; f = injected failure of
+       GetDeviceAuthorizatonState; like every request it arrives under its own
+       Host / Forwarded host *)
+
+(* what a token answer carries (projection of oidc.AccessTokenResponse and of
+   the tokens in it) *)
+Record tokens := mkTokens {
+  t_sub : string;                    (* subject of the access token *)
+  t_client : string;                 (* the client the storage recorded the access token for *)
+  t_scopes : list string;            (* "scope" of the token response *)
+  t_granted : list string;           (* the scopes the storage recorded with the access token *)
+  t_id : option (string * string);   (* id_token: (sub, iss) *)
+  t_at_iss : option string;          (* iss of the access token when it is a JWT *)
+  t_refresh : bool }.                (* a refresh token was issued *)
 
 Inductive resp :=
 | RDevice (dc uc vuri vuri_complete : string) (expires_in interval : Z)
-| RTokens (sub client : string) (scopes : list string) (idsub : option string) (refresh : bool)
+| RTokens (t : tokens)
 | RErr (code : string)              (* status >= 400 with an OAuth error document *)
 | RAck (found : bool)
 | RPanic
@@ -204,11 +219,16 @@ Definition check_state (st : store) (cid dc : string) (now : Z) (f : fault) : de
       end
   end.
 
-(* CreateDeviceTokenResponse, projected *)
-Definition tokens_for (c : client) (d : dev) : resp :=
-  RTokens (d_subject d) (d_client d) (d_scopes d)
-          (if string_in "openid" (d_scopes d) then Some (d_subject d) else None)
-          (string_in "offline_access" (d_scopes d) && c_refresh c).
+(* CreateDeviceTokenResponse, projected. [iss] = IssuerFromContext of the token
+   request. The stored scope list is handed on as it is (order, repetitions):
+   to the storage that creates the access token, into the response; the ID token
+   is issued iff "openid" is among them, a refresh token iff "offline_access" is
+   and the client has the refresh_token grant. *)
+Definition tokens_for (iss : string) (c : client) (d : dev) : resp :=
+  RTokens (mkTokens (d_subject d) (d_client d) (d_scopes d) (d_scopes d)
+          (if string_in "openid" (d_scopes d) then Some (d_subject d, iss) else None)
+          (if c_jwt c then Some iss else None)
+          (string_in "offline_access" (d_scopes d) && c_refresh c)).
 
 (* ---- the two routers ---------------------------------------------------- *)
 Definition authz (g : cfg) (cl : list client) (st : store) (r : router) (cr : creds)
@@ -235,8 +255,9 @@ Definition authz (g : cfg) (cl : list client) (st : store) (r : router) (cr : cr
       end
   end.
 
-Definition poll (cl : list client) (st : store) (r : router) (cr : creds) (dc : string)
-    (now : Z) (f : fault) : resp :=
+Definition poll (g : cfg) (cl : list client) (st : store) (r : router) (cr : creds) (dc : string)
+    (now : Z) (f : fault) (host : string) (fwd : option string) : resp :=
+  let iss := request_issuer g host fwd in
   match r with
   | RProvider =>                       (* deviceAccessToken *)
       match prov_client cl cr with
@@ -247,7 +268,7 @@ Definition poll (cl : list client) (st : store) (r : router) (cr : creds) (dc : 
           | inl d =>
               match find_client cl id with
               | None => RErr "server_error"
-              | Some c => if prov_authenticated c authd then tokens_for c d else RErr "invalid_client"
+              | Some c => if prov_authenticated c authd then tokens_for iss c d else RErr "invalid_client"
               end
           end
       end
@@ -259,7 +280,7 @@ Definition poll (cl : list client) (st : store) (r : router) (cr : creds) (dc : 
           else if String.eqb dc "" then RErr "invalid_request"
           else match check_state st (c_id c) dc now f with
                | inr e => RErr e
-               | inl d => tokens_for c d
+               | inl d => tokens_for iss c d
                end
       end
   end.
@@ -269,7 +290,7 @@ Definition step (g : cfg) (cl : list client) (st : store) (o : op) : store * res
   | OpAuthz r cr scopes now life rnd host fwd => authz g cl st r cr scopes now life rnd host fwd
   | OpApprove uc sub => (on_user uc (approve_dev sub) st, RAck (has_user st uc))
   | OpDeny uc => (on_user uc deny_dev st, RAck (has_user st uc))
-  | OpPoll r cr dc now f => (st, poll cl st r cr dc now f)
+  | OpPoll r cr dc now f host fwd => (st, poll g cl st r cr dc now f host fwd)
   end.
 
 Fixpoint run (g : cfg) (cl : list client) (st : store) (ops : list op) : list resp :=
